@@ -249,7 +249,6 @@ static void spit(const std::string& path, const std::string& s) {
   size_t off = 0; while (off < s.size()) { ssize_t k = ::write(fd, s.data() + off, s.size() - off); if (k <= 0) break; off += k; }
   ::close(fd);
 }
-static bool exists(const std::string& p) { struct stat st; return ::stat(p.c_str(), &st) == 0; }
 static std::vector<std::string> lines_of(const std::string& s) {
   std::vector<std::string> v; std::string cur;
   for (char ch : s) { if (ch == '\n') { v.push_back(cur); cur.clear(); } else cur += ch; }
@@ -625,8 +624,6 @@ static std::string make_sol(const Data& D, const SolPattern& sp, const std::vect
   }
   return s;
 }
-
-struct SolSnapshot { bool valid = false; int code; std::vector<double> x, y; std::vector<std::tuple<std::string, int, std::vector<double>>> sufs; };
 
 static void check_solution(const Data& D, const SolPattern& sp, const mp::NLSolution& sol, const std::string& err,
                            const std::vector<int>& vperm, bool nonident) {
